@@ -1,42 +1,18 @@
-"""C16 — see harness/props/sdl_ko.py (check_c16) for the oracle on the real StatefulDataLoader under the virtual
-scheduler; the Lean theorems and the trace-validation leg are listed in THEOREMS / run()."""
+"""C16 - oracle: harness/props/sdl_ko.py (check_c16) on the real StatefulDataLoader under the virtual scheduler;
+theorems and correspondence legs come from the SP / MP model parts."""
 from __future__ import annotations
 
-from typing import Tuple
+from . import _compose, sdl_ko
 
-from ..core import Ctx
-from . import sdl_ko
-
-THEOREMS: list = []
-LEAN_MODULES: list = []
-RULE = ""
-EXPLANATION = ""
+RULE = 'all 20 ordered pairs (saving num_workers, loading num_workers) in 0..4, checkpoint after k in {0,1,2,3,5} batches, all dataset kinds: empty dict is a no-op, mismatching state is rejected with an error before any data, no virtual worker process survives the rejection, a later valid load works. Every case is non-trivial; distinct by (configuration, pair, k).'
+EXPLANATION = 'Decision logic of the constructors; Lean: TDV.MP / TDV.SP constructor models reject_mismatch (see Props). Oracle: every ordered pair on the real loader; worker release checked on the virtual process table (GC-driven clean-up is CPython behaviour, sampled not proved).'
 ASSUMPTIONS = ["worker processes are virtual processes under harness/vsched.py (real _worker_loop, deep-copied arguments, pickled queue payloads)"]
-KNOWN: dict = {}
-NQ, NT = 60, 1000
 
+PARTS = [_compose.ko_part("ko", sdl_ko.gen_c16, sdl_ko.check_c16, 80, 1200, known=None)]
 
-def extra_legs(ctx: Ctx):
+try:
+    from . import mp_parts
+    PARTS += mp_parts.parts("C16")
+except ImportError:
     pass
-
-
-def run(ctx: Ctx):
-    import torch
-    torch.set_num_threads(1)
-    jobs = sdl_ko.gen_c16(ctx, ctx.n(NQ, NT))
-    for j in jobs[:2]:
-        ctx.sample(j)
-    ctx.pmap(sdl_ko.check_c16, jobs)
-    extra_legs(ctx)
-
-
-def escalate(ctx: Ctx):
-    run(ctx)
-
-
-def replay(ctx: Ctx, payload) -> Tuple[bool, str]:
-    sub = Ctx(ctx.prop, ctx.tier, ctx.seed)
-    sdl_ko.check_c16(sub, payload["input"])
-    if sub.failures:
-        return False, sub.failures[0].what
-    return True, "property holds on this input"
+_compose.assemble(globals(), PARTS, RULE, EXPLANATION, ASSUMPTIONS)
